@@ -315,6 +315,11 @@ _x("hw_localbox", "m_wild.LocalBox", """
 <w:localBox xmlns:w="urn:w"><loc>l</loc><w:t1>1</w:t1><w:b>x</w:b></w:localBox>""")
 _x("hw_twowild", "m_wild.TwoWild", """
 <w:twoWild xmlns:w="urn:w" xmlns:r="urn:r"><w:m>1</w:m><l>2</l><r:r>3</r:r><w:m>4</w:m><r:s/></w:twoWild>""")
+# the same local names under other namespaces: a memo keyed by local name would send them to the wrong wildcard
+_x("hw_twowild_swapped", "m_wild.TwoWild", """
+<w:twoWild xmlns:w="urn:w" xmlns:r="urn:r"><r:m>1</r:m><w:l>2</w:l><w:r>3</w:r><m>4</m><w:s/></w:twoWild>""")
+_x("hw_otherbox_b", "m_wild.OtherBox", """
+<otherBox xmlns="urn:w" xmlns:p="urn:p9" p:k="v"><head>h</head><p:x>1</p:x><p:head>2</p:head></otherBox>""")
 _x("hw_para", "m_wild.Para", """<p xmlns="urn:w" style="s">lead <b>bold</b> mid <i xmlns="urn:z">it</i> end</p>""")
 _x("hw_choice", "m_compound.Choice", """
 <choice xmlns="urn:c" xmlns:d="urn:c2"><alpha a="1"><text>x</text></alpha><count>5</count><bravo b="b"><num>2</num></bravo><d:word>w</d:word><count>6</count></choice>""")
@@ -347,6 +352,8 @@ _bx("bad_no_root_class", None, """<nothing xmlns="urn:nowhere"><a/></nothing>"""
 _bx("bad_child_in_simple", "m_basic.Item", """<item xmlns="urn:basic" id="1"><name><b>n</b></name></item>""")
 _bx("bad_missing_required", "m_basic.Order", """<order xmlns="urn:basic"><comment>c</comment></order>""")
 _bx("bad_wrong_ns_child", "m_ns.ParentA", """<parentA xmlns="urn:a"><child xmlns="urn:b"><x>1</x></child></parentA>""")
+_bx("bad_otherbox_own_ns", "m_wild.OtherBox", """<otherBox xmlns="urn:w"><head>h</head><x>1</x></otherBox>""")
+_bx("bad_localbox_ns", "m_wild.LocalBox", """<w:localBox xmlns:w="urn:w" xmlns:q="urn:q"><q:loc>l</q:loc></w:localBox>""")
 _bx("bad_union", "m_compound.EitherWay", """<either xmlns="urn:c"><pick zzz="1"><nope/></pick></either>""")
 _bx("bad_fixed", "m_basic.Item", """<item xmlns="urn:basic" id="1" version="2.0"><name>n</name></item>""")
 _bx("bad_empty", "m_basic.Item", "")
